@@ -361,3 +361,75 @@ func VH_C02_FetchCompressed(version, kind, nrec int) {
 	vhAssert(!fc.closed, "connection-kept-after-a-complete-response")
 	vhReach("c02-fetch-compressed")
 }
+
+// Wide deltas and nulls: one v2 batch whose records sit 70 and 200 offsets (100 and 5000 ms) after the first, so
+// that the record fields are multi-byte varints, with a null key on the second and a null value (tombstone) on
+// the third record; the start position is anywhere inside the batch (records below it are skipped) and the
+// response arrives in two TCP segments cut at any byte of the record data (segments=1).
+func VH_C02_FetchV2Wide(version, segments int) {
+	vhConcreteClock(true)
+	first := vhInt64("log_fragment_start")
+	vhAssume(vhAll(first >= 0, first < 1<<40))
+	const ts = int64(1600000000000)
+	k0, v0 := vhBytes("key", 1), vhBytes("value", 2)
+	v1 := vhBytes("value", 2)
+	k2 := vhBytes("key", 1)
+	recs := []vhRec{
+		{offsetDelta: 0, tsDelta: 0, key: k0, value: v0},
+		{offsetDelta: 70, tsDelta: 100, key: nil, value: v1},
+		{offsetDelta: 200, tsDelta: 5000, key: k2, value: nil},
+	}
+	stored := []vhStored{
+		{offset: first, ts: ts, key: k0, value: v0},
+		{offset: first + 70, ts: ts + 100, key: nil, value: v1},
+		{offset: first + 200, ts: ts + 5000, key: k2, value: nil},
+	}
+	wire := vhEncBatchV2(first, 0, 200, ts, ts+5000, 3, recs)
+	o := first + int64(vhChoose("position_in_batch", 4))*70 // first, +70, +140 (a compacted offset), +210 -> capped
+	if o > first+200 {
+		o = first + 200
+	}
+	f1 := vhApiVersionsFrame(1, []vhApiRange{{int16(fetch), 0, int16(version)}, {int16(listOffsets), 0, 1}})
+	f2 := vhFetchResponse(2, version, 0, "t", 0, 0, first+300, wire)
+	fc := &vhFakeConn{data: append(append([]byte{}, f1...), f2...)}
+	if segments == 1 {
+		fc.segment = len(f1) + len(f2) - len(wire) + 61 + vhChoose("segment_cut", len(wire)-61)
+	}
+	c := NewConnWith(fc, ConnConfig{Topic: "t", Partition: 0, ClientID: "vh"})
+	_, serr := c.Seek(o, SeekAbsolute|SeekDontCheck)
+	vhAssert(serr == nil, "seek-ok")
+	b := c.ReadBatchWith(ReadBatchConfig{MinBytes: 1, MaxBytes: 100000})
+	var got []Message
+	var lastErr error
+	for i := 0; i < 5; i++ {
+		m, err := b.ReadMessage()
+		if err != nil {
+			lastErr = err
+			break
+		}
+		got = append(got, m)
+	}
+	cerr := b.Close()
+	vhAssert(lastErr == io.EOF && cerr == nil, "wide-batch-ends-with-EOF")
+	var want []vhStored
+	for _, s := range stored {
+		if s.offset >= o {
+			want = append(want, s)
+		}
+	}
+	vhAssert(len(got) == len(want), "wide-delivers-exactly-the-stored-records-at-or-after-the-position")
+	for i := range want {
+		if i >= len(got) {
+			break
+		}
+		g := got[i]
+		vhAssert(g.Offset == want[i].offset, "wide-offsets")
+		vhAssert(g.Time.Unix()*1000+int64(g.Time.Nanosecond())/1000000 == want[i].ts, "wide-timestamps")
+		vhAssert((g.Key == nil) == (want[i].key == nil), "null-key-is-delivered-as-nil-key")
+		vhAssert((g.Value == nil) == (want[i].value == nil), "null-value-is-delivered-as-nil-value")
+		vhAssert(vhAll(vhBytesEq(g.Key, want[i].key), vhBytesEq(g.Value, want[i].value)), "wide-key-and-value")
+	}
+	no, _ := c.Offset()
+	vhAssert(no == first+201, "wide-position-moves-past-the-batch")
+	vhReach("c02-fetch-v2-wide")
+}
